@@ -1663,11 +1663,13 @@ class Kconfig(object):
                     if not choice._was_set:
                         choice.unset_value()
 
-            for sym in symbols_with_default_values:
-                sym.resolve_defaults()
-
+            # Choices first: a choice resolves the symbols it depends on itself, but a symbol whose default depends on
+            # a choice member must be compared against the choice's resolved (possibly sdkconfig-provided) selection
             for choice in choices_with_default_values:
                 choice.resolve_defaults()
+
+            for sym in symbols_with_default_values:
+                sym.resolve_defaults()
 
             # Invalidate all cached values as we edited the configuration
             for sym in self.unique_defined_syms:
